@@ -28,14 +28,17 @@ Fr = fractions.Fraction
 PROPS = ['C12_newton_tir_diverges', 'C12_unrepaired_terminates_refuted', 'C12_unrepaired_flags_refuted', 'C12_refract_terminates',
          'C12_tir_flagged', 'C12_unflagged_is_converged', 'C12_negative_error_flagged', 'C12_newton_converges',
          'C12_refract_run_is_C11_model', 'C12_batch_terminates_and_rows_sound', 'C12_executable_model_correct',
-         'C12_secant_bounded', 'C12_secant_exit_on_surface', 'C12_secant_miss_flagged', 'C12_zero_direction_flagged',
+         'C12_secant_bounded', 'C12_secant_exit_on_surface', 'C12_secant_exit_is_step_from_tested_point', 'C12_secant_batch_bounded',
+         'C12_secant_batch_rows_on_surface', 'C12_secant_batch_miss_flagged', 'C12_batch_guard_unrepaired_refuted', 'C12_secant_miss_flagged', 'C12_zero_direction_flagged',
          'C12_parametric_no_exception_refuted', 'C12_parametric_no_exception_partial', 'C12_sphere_fixed_steps',
          'C12_sphere_flag_sound', 'C12_sphere_miss_flagged', 'C12_sphere_behind_flagged', 'C12_sphere_behind_unrepaired_refuted', 'C12_instance']
 F_REFR = 'odak.learn.raytracing.refract'
 F_PAR = 'odak.raytracing.intersect_parametric'
 F_TSPH = 'odak.learn.raytracing.intersect_w_sphere'
 TOL32 = 2e-5
-WATCHDOG = {'refract': 10.0, 'parametric': 40.0, 'torch_sphere': 90.0}
+# CPU seconds a call may consume (the watchdog measures the worker's CPU time, so machine load cannot raise an alarm;
+# a default-limit miss of the secant loop is 100001 bodies, about 5 CPU s; 5000 optimiser steps about 5 CPU s)
+WATCHDOG = {'refract': 10.0, 'parametric': 60.0, 'torch_sphere': 120.0}
 
 
 def api():
@@ -77,6 +80,19 @@ def w_parametric(inp):
             'normal': None if flag_n else np.asarray(normal, float).reshape(-1).tolist()}
 
 
+def w_parametric_counted(inp):
+    """intersect_parametric on one ray and a sphere, with a surface function that counts its evaluations"""
+    _, nr = api()
+    cnt = [0]
+    def f(point, surf):
+        cnt[0] += 1
+        return nr.sphere_function(point, surf)
+    dist, normal = nr.intersect_parametric(np.array(inp['ray'], float), np.array(inp['surface'], float), f, nr.get_sphere_normal,
+                                           target_error=inp['target_error'], iter_no_limit=inp['iter_no_limit'])
+    flag = dist is False or (isinstance(dist, (bool, np.bool_)) and not dist)
+    return {'flag': bool(flag), 'distance': None if flag else float(np.asarray(dist, float).reshape(-1)[0]), 'evals': cnt[0]}
+
+
 def w_torch_sphere(inp):
     lr, _ = api()
     rays = torch.tensor(inp['rays'], dtype=torch.float32); sph = torch.tensor([inp['sphere']], dtype=torch.float32)
@@ -100,7 +116,7 @@ def guarded(kind, fn, inp):
         g = _GUARDS[kind] = Guard('harness.props.c12', timeout=WATCHDOG[kind], max_timeouts=3)
     k, val = g.call(fn, inp)
     if k == 'timeout':
-        raise NoReturn('no return within %s s (watchdog)' % val if val else 'not called: the watchdog expired %d times already' % g.timeouts)
+        raise NoReturn('no return (watchdog: %s)' % val if val else 'not called: the watchdog expired %d times already' % g.timeouts)
     if k == 'exc':
         raise RuntimeError(val)
     return val
@@ -242,6 +258,11 @@ def oracle_parametric(inp):
         # the point that was tested is within `tol`; the returned distance is one more secant step from it
         ok = ok and abs(val) <= 10 * tol + 1e-6 * max(1.0, abs(C))
         res.append(('unflagged_is_on_surface', ok, '|f(o + dist d)| <= 10 target_error + 1e-6 scale, dist >= 0', {'distance': dist, 'f': val, 'class': cls}))
+    if inp.get('expect_root') is not None:
+        # a well-conditioned hit (generator `clear-hit`): the solver must find it (the secant iteration may settle on either intersection)
+        roots = inp['expect_root']
+        got = None if r['flag_distance'] else r['distance'][0]
+        res.append(('clear_hit_is_solved', got is not None and any(abs(got - t) <= 1e-5 * max(1.0, t) for t in roots), 'distance = one of %r (analytic intersections along the ray)' % (roots,), got))
     return res
 
 
@@ -281,7 +302,7 @@ def run_oracle(name, inp):
     try:
         return ORACLES[name](inp)
     except NoReturn as e:
-        return [('returns', False, 'a result within %g s' % WATCHDOG[name], str(e))]
+        return [('returns', False, 'a result within %g CPU s' % WATCHDOG[name], str(e))]
     except Exception as e:
         return [('no_exception', False, 'a result or a flag', repr(e))]
 
@@ -405,6 +426,52 @@ def gen_parametric(ctx, n):
             out.append({'fn': 'intersect_w_sphere' if name_ != 'miss' else 'intersect_parametric', 'kind': 'sphere', 'surface': sph, 'rays': rays,
                         'iter_no_limit': None if name_ != 'miss' else 300, 'case': 'batch/%s@%d' % (name_, pos)})
     out.append({'fn': 'intersect_w_sphere', 'kind': 'sphere', 'surface': sph, 'rays': okr, 'case': 'batch/all-solvable'})
+    # batches of every size 1..5 (incl. exactly two rays); rows that start outside, inside, on the surface, behind or miss, in
+    # every position (a row that starts inside has a NEGATIVE residual while the others are positive)
+    zdir = [0.0, 0.0, 1.0]
+    pool = {'outside': [[0.0, 0.0, 0.0], zdir], 'outside2': [[1.0, 0.0, 0.0], zdir], 'inside': [[0.0, 0.0, 10.0], zdir], 'inside2': [[0.0, 0.0, 9.5], zdir],
+            'inside3': [[0.5, 0.2, 11.0], zdir], 'on': [[0.0, 0.0, 7.0], zdir], 'miss': [[5.0, 0.0, 0.0], zdir], 'behind': [[0.0, 0.0, 20.0], zdir]}
+    mixes = [['outside'], ['inside'], ['outside', 'outside2'], ['outside', 'inside'], ['inside', 'outside'], ['inside', 'inside2'], ['outside', 'miss'],
+             ['outside', 'inside', 'outside2'], ['inside2', 'outside', 'outside2'], ['outside', 'outside2', 'inside3'], ['outside', 'on', 'inside'],
+             ['outside', 'inside', 'outside2', 'inside2'], ['behind', 'outside', 'inside'], ['inside', 'outside', 'inside2', 'outside2', 'inside3'],
+             ['outside', 'outside2', 'inside', 'miss', 'inside2']]
+    for mix in mixes:
+        lim = 400 if ('miss' in mix or 'behind' in mix) else None
+        out.append({'fn': 'intersect_w_sphere' if lim is None else 'intersect_parametric', 'kind': 'sphere', 'surface': sph, 'rays': [pool[k] for k in mix],
+                    'iter_no_limit': lim, 'case': 'batch%d/%s' % (len(mix), '+'.join(mix))})
+    for m in (2, 3):                                   # cylinders: batches of rays across the axis
+        out.append({'fn': 'intersect_w_cylinder', 'kind': 'cylinder', 'surface': cyl, 'rays': [[[-8.0, 0.5 * (j + 1), 4.0], [1.0, 0.0, 0.0]] for j in range(m)],
+                    'case': 'cyl/batch%d' % m})
+    # clear hits: the solver must FIND them (one of the intersections along the ray), from outside and from inside
+    for i in range(max(12, n // 2)):
+        kind = rng.choice(['sphere', 'cylinder'])
+        c = np.array([rng.uniform(-3, 3) for _ in range(3)]); r = 10 ** rng.uniform(-1, 1)
+        inside = rng.random() < 0.4
+        if kind == 'sphere':
+            surf = [float(x) for x in c] + [float(r)]
+            o = c + unit(rng) * r * (rng.uniform(0.0, 0.7) if inside else rng.choice([1.5, 4.0, 30.0]))
+            aim = c + unit(rng) * r * rng.uniform(0.0, 0.8)
+            d = unit(rng) if inside else (aim - o) / np.linalg.norm(aim - o)
+        else:
+            surf = [float(x) for x in nr.define_cylinder(c, r, [rng.uniform(-60, 60), rng.uniform(-60, 60), 0.0])]
+            ax = np.array(surf[4:7]) - np.array(surf[:3]); ax /= np.linalg.norm(ax)
+            def perp():
+                v = np.cross(ax, unit(rng))
+                while np.linalg.norm(v) < 0.2: v = np.cross(ax, unit(rng))
+                return v / np.linalg.norm(v)
+            o = c + ax * rng.uniform(-2, 2) + perp() * r * (rng.uniform(0.0, 0.7) if inside else rng.choice([1.5, 4.0, 30.0]))
+            aim = c + ax * rng.uniform(-2, 2) + perp() * r * rng.uniform(0.0, 0.8)
+            d = unit(rng) if inside else (aim - o) / np.linalg.norm(aim - o)
+            if np.linalg.norm(np.cross(d, ax)) < 0.3:
+                continue                                # nearly along the axis: ill-conditioned
+        case = {'fn': 'intersect_parametric', 'kind': kind, 'surface': surf, 'ray': [o.tolist(), d.tolist()], 'iter_no_limit': 2000}
+        A, B, C = quad_coeffs(case); disc = B * B - A * C
+        if disc <= 0 or A < 1e-9:
+            continue
+        roots = [t for t in ((-B - math.sqrt(disc)) / A, (-B + math.sqrt(disc)) / A) if t > 1e-3]
+        if not roots:
+            continue
+        out.append(dict(case, expect_root=roots, case='clear-hit/%s/%s' % (kind, 'inside' if inside else 'outside')))
     for i in range(n):
         kind = rng.choice(['sphere', 'cylinder'])
         c = np.array([rng.uniform(-3, 3) for _ in range(3)]); r = 10 ** rng.uniform(-1, 1)
@@ -537,6 +604,54 @@ def b2(ctx, cases):
 
 
 # ---------------------------------------------------------------- translator self-check (numeric)
+def compose_secant(g, ray, sph, tol, limit):
+    """the traced pieces of intersect_parametric (guard, kernel, secant step, counter test, NaN test) composed by the loop of
+    the model, one ray and a sphere, in float64; returns (distance or None for the flag, kernel evaluations)"""
+    envr = {'r_0_%d_%d' % (j, k): float(ray[j][k]) for j in range(2) for k in range(3)}
+    envs = dict(envr, **{'s_%d' % i: float(sph[i]) for i in range(4)})
+    d0, d1, e0, e1, it, evals = 0.0, 0.1, 150.0, 100.0, 0, 0
+    while g.evalf('g_sec_guard', {'iter_no': float(it), 'e1_old': e1, 'tol': tol}):
+        e1n = g.evalf('g_sphere_err', dict(envs, x=d1)); evals += 1
+        point = [g.evalf('g_kernel_point_%d' % k, dict(envr, d1=d1)) for k in range(3)]
+        st = {'d0': d0, 'd1': d1, 'e0': e0, 'e1': e1n}
+        d0, d1, e0, e1 = g.evalf('g_sec_d0', st), g.evalf('g_sec_next', st), g.evalf('g_sec_e0', st), g.evalf('g_sec_e1', st)
+        stop = g.evalf('g_sec_stop', {'iter_no': float(it), 'limit': float(limit)})       # a function of the counter before the pass
+        it = int(g.evalf('g_sec_count', {'iter_no': float(it)}))
+        if stop:
+            return None, evals
+        if math.isnan(sum(point)):                     # the second in-loop exit: np.isnan(np.sum(point)) (false over R, see g_sec_stop_1)
+            return None, evals
+        if evals > limit + 5:
+            raise RuntimeError('composed secant loop does not stop')
+    return d1, evals
+
+
+def self_check_secant(ctx, g):
+    """the COMPOSED loop (traced pieces iterated as the model iterates them) against the real intersect_parametric: same flag, same
+    distance, same number of kernel evaluations — this ties the glue (which state goes into which piece) numerically"""
+    rng = ctx.rng
+    sph = [0.3, -0.2, 6.0, 2.0]
+    rays = [[[0, 0, 0], [0, 0, 1.0]], [[0.5, 0.2, 0], [0.02, 0.05, 1.0]], [[0.3, -0.2, 6.5], [0.3, 0.1, 1.0]], [[0.3, -0.2, 4.0], [0, 0, 1.0]], [[4.0, 0, 0], [0, 0, 1.0]],
+            [[0, 0, 12.0], [0, 0, 1.0]], [[0, 0, 0], [0, 0, 0.0]], [[2.3, -0.2, 0], [0, 0, 1.0]]]
+    for _ in range(12):
+        o = np.array(sph[:3]) + unit(rng) * rng.choice([0.5, 1.0, 3.0, 8.0]) * 2.0
+        aim = np.array(sph[:3]) + unit(rng) * rng.choice([0.0, 1.0, 1.9, 2.5])
+        rays.append([o.tolist(), ((aim - o) / np.linalg.norm(aim - o)).tolist()])
+    bad = 0; n = 0
+    for ray in rays:
+        d = np.array(ray[1], float)
+        if np.linalg.norm(d) > 0: ray = [ray[0], (d / np.linalg.norm(d)).tolist()]
+        for tol, limit in ((1e-8, 60), (1e-3, 25)):
+            want = guarded('parametric', 'w_parametric_counted', {'ray': ray, 'surface': sph, 'target_error': tol, 'iter_no_limit': limit})
+            got_d, got_n = compose_secant(g, ray, sph, tol, limit)
+            ok = (got_d is None) == want['flag'] and got_n == want['evals'] and (got_d is None or emit.close(got_d, want['distance'], 1e-9, 1e-12))
+            n += 1
+            if not ok:
+                bad += 1; ctx.log('composed secant loop differs', ray, tol, limit, (got_d, got_n), want)
+    ctx.traces += n
+    ctx.obligation('translator-self-check(composed secant loop = intersect_parametric on %d runs: flag, distance, kernel evaluations)' % n, bad == 0 and n > 0, '%d mismatches' % bad)
+
+
 def self_check(ctx, g, info):
     _, nr = api()
     lr, _ = api()
@@ -561,12 +676,19 @@ def self_check(ctx, g, info):
         cmp('g_sphere_err', g.evalf('g_sphere_err', dict(env, **{'s_%d' % i: sph[i] for i in range(4)})), float(np.asarray(e).reshape(-1)[0]))
         e, p = nr.intersection_kernel_for_parametric_surfaces(x, ray, cyl, nr.cylinder_function)
         cmp('g_cyl_err', g.evalf('g_cyl_err', dict(env, **{'c_%d' % i: cyl[i] for i in range(7)})), float(np.asarray(e).reshape(-1)[0]))
-        # PyTorch residual / flag of intersect_w_sphere at a given distance
-        r32 = torch.tensor(np.array([ray]), dtype=torch.float32); s32 = torch.tensor(np.array([sph]), dtype=torch.float32); x32 = torch.tensor([x], dtype=torch.float32)
-        pr = lr.propagate_ray(r32, x32)
-        test = torch.abs((pr[:, 0, 0] - s32[:, 0]) ** 2 + (pr[:, 0, 1] - s32[:, 1]) ** 2 + (pr[:, 0, 2] - s32[:, 2]) ** 2 - s32[:, 3] ** 2)
-        env32 = {k: float(np.float32(v)) for k, v in env.items()}; env32['x_0'] = float(np.float32(x)); env32.update({'s_0_%d' % i: float(np.float32(sph[i])) for i in range(4)})
-        cmp('g_ts_test', g.evalf('g_ts_test', env32), float(test[0]), 1e-4, 1e-4)
+    # PyTorch flag of intersect_w_sphere: with number_of_steps = 1 the residual is tested at the initial distance 0 and the
+    # returned distance is the one after the single optimiser step
+    for _ in range(10):
+        sph = [rng.uniform(-1, 1), rng.uniform(-1, 1), rng.uniform(1, 3), rng.uniform(0.5, 2)]
+        o = (np.array(sph[:3]) + unit(rng) * sph[3] * rng.choice([1.0, 1.0, 1.3, 0.5])).tolist()
+        ray = [o, unit(rng).tolist()]
+        thr = rng.choice([1e-2, 1.0, 10.0])
+        r = guarded('torch_sphere', 'w_torch_sphere', {'rays': [ray], 'sphere': sph, 'steps': 1, 'lr': None, 'thr': thr})
+        env32 = {'r_0_%d_%d' % (j, k): float(np.float32(ray[j][k])) for j in range(2) for k in range(3)}
+        env32.update({'s_0_%d' % i: float(np.float32(sph[i])) for i in range(4)}); env32.update({'x_0': 0.0, 'y_0': r['distance'][0], 'thr': thr})
+        resid = abs(sum((env32['r_0_0_%d' % k] - env32['s_0_%d' % k]) ** 2 for k in range(3)) - env32['s_0_3'] ** 2)
+        if abs(resid - thr) > 1e-4 * max(1.0, thr) and abs(r['distance'][0]) > 1e-9:        # away from the float32 decision boundaries
+            cmp('g_ts_check', bool(g.evalf('g_ts_check', env32)), bool(r['check'][0]))
     ctx.traces += n
     ctx.obligation('translator-self-check(traced terms = real functions on %d values)' % n, bad == 0 and n > 0, '%d mismatches' % bad)
 
@@ -576,12 +698,12 @@ def structure(ctx, info12, info11):
     from harness.props import c11
     if info11 is not None:
         c11.loop_control(ctx, info11)
-        ctx.obligation('refract:loop-has-an-iteration-cap', info11['has_cap'] and 'num < max_iterations' in info11['guard_src'].replace('  ', ' '),
-                       'guard: %s' % info11['guard_src'])
+        ctx.obligation('refract:loop-has-an-iteration-cap', info11['has_cap'] and info11.get('guard_reads_cap', False),
+                       'guard: %s (the exact form `counter < cap` is the tie lemma g_rf_guard1_ok)' % info11['guard_src'])
     if info12 is not None:
         ini = info12['init']
-        ok = ini.get('error') == '[150, 100]' and ini.get('distance') == '[0, 0.1]' and ini.get('iter_no') == '0'
-        ctx.obligation('intersect_parametric:initial-state(error=[150,100], distance=[0,0.1], iter_no=0)', ok, repr(ini))
+        ok = ini.get('errors') == [150, 100] and ini.get('distances') == [0, 0.1] and ini.get('counter') == 0
+        ctx.obligation('intersect_parametric:initial-state(errors=[150,100], distances=[0,0.1], counter=0)', ok, '%r (roles: %r)' % (ini, info12.get('roles')))
         ctx.obligation('intersect_parametric:defaults(target_error=1e-8, iter_no_limit=100000)', info12['defaults'] == {'target_error': 1e-08, 'iter_no_limit': 100000}, repr(info12['defaults']))
 
 
@@ -599,7 +721,7 @@ def run(ctx):
                     'wall-clock: observed under the watchdog (10 s refract, 40 s secant with the default 100001-body limit, 90 s optimiser), not proved',
                     'float rounding is not modelled; B2 cases are selected with a factor-4 margin in eps^2 so that float32 and exact arithmetic take the same exit']
     ctx.gate()
-    ctx.ensure_theories(['theories/C12/Props.vo'])
+    ctx.ensure_theories(['theories/C12/Props.vo'], extra_dirs=['C11'])
     ctx.theorems('OdakV.C12.Props', PROPS)
     # B1
     g11, info11 = emit.Gen(), None
@@ -623,7 +745,12 @@ def run(ctx):
             self_check(ctx, g12, info12)
         except Exception as e:
             ctx.obligation('translator-self-check', False, repr(e))
-        ctx.sample({'traced_definition': 'g_sec_next', 'coq': shim.coq(g12.by_name['g_sec_next'][1]), 'guard': info12['guard'], 'in_loop_exits': info12['stops']})
+        try:
+            self_check_secant(ctx, g12)
+        except Exception as e:
+            ctx.obligation('translator-self-check(composed secant loop)', False, repr(e))
+        ctx.sample({'traced_definition': 'g_sec_next', 'coq': shim.coq(g12.by_name['g_sec_next'][1]), 'guard': info12['guard'], 'roles': info12['roles'],
+                    'in_loop_exits': shim.coq(g12.by_name['g_sec_stop'][1])})
     # B2 + direct oracles, all under the watchdog
     ctx.log('B1 done; evaluating the model inside Coq (B2)')
     b2(ctx, b2_cases(ctx, 24 if ctx.thorough else 10))
